@@ -15,7 +15,7 @@ const char *rk_names[] = { "data", "data_ttl5", "data_ttl0", "nodata", "nodata_n
                            "refused", "notimp", "formerr_noopt", "formerr_opt", "tc", "malformed", "empty", "ck_none", "ck_valid",
                            "ck_valid2", "ck_wrongclient", "badcookie", "badcookie_bare", "cname_data", "data_mixed", "data_multi", "data_soa", "notauth" };
 const char *fg_names[] = { "wrongid", "wrongname", "wrongtype", "wrongclass", "caseflip", "wrongsrc", "othersock", "nocookie", "badclientcookie", "wrongsrc-framed" };
-const char *fs_names[] = { "socket", "setsockopt", "bind", "connect", "getsockname", "send_refused", "send_wouldblock", "send_short", "recv_reset", "send_eintr", "recv_eintr", "send_enobufs" };
+const char *fs_names[] = { "socket", "setsockopt", "bind", "connect", "getsockname", "send_refused", "send_wouldblock", "send_short", "recv_reset", "send_eintr", "recv_eintr", "send_enobufs", "socket_eagain" };
 
 static std::string fmt(const char *f, ...)
 {
@@ -255,6 +255,13 @@ static bool take_fault(World *w, int site)
 static ares_socket_t s_socket(int domain, int type, int, void *ud)
 {
   World *w = (World *)ud;
+  if (take_fault(w, FS_SOCKET_EAGAIN)) {
+    // a transient resource shortage: an error like any other for the caller (the attempt on this server failed)
+    w->net_fails.push_back({ ++w->seq, -1, -1 });
+    w->log("socket() -> EAGAIN");
+    errno = EAGAIN;
+    return ARES_SOCKET_BAD;
+  }
   if (take_fault(w, FS_SOCKET)) {
     w->net_fails.push_back({ ++w->seq, -1, -1 });
     w->log("socket() -> EMFILE");
